@@ -123,6 +123,7 @@ struct Op { Fields a; };
 static std::vector<Op> g_ops[SIM_MAX_CLIENTS];
 static std::string g_out[SIM_MAX_CLIENTS];
 static __thread int g_fbuf = 400;     // Fortran-binding buffer length (per client)
+static __thread long tl_imported[64]; // ids received from other clients ("await")
 static std::string g_sandbox;
 
 static void emit(int client, int opidx, long s0, long s1, const Fields &f)
@@ -332,6 +333,7 @@ static bool resolve(int client, const std::string &t, int b, IPhreeqc *&p, int &
 	p = 0; sim = 0; id = -1;
 	if (t.size() < 2) return false;
 	if (t[0] == 'i') { id = atoi(t.c_str() + 1); return b != B_CPP; }
+	if (t[0] == 'f') { id = (int)tl_imported[atoi(t.c_str() + 1) & 63]; return b != B_CPP; }     // id received from another client
 	std::map<int, Slot>::iterator it = g_slots[client].find(atoi(t.c_str() + 1));
 	if (it == g_slots[client].end()) return false;
 	id = it->second.id;
@@ -660,6 +662,14 @@ static void run_op(int client, int opidx, const Op &op)
 			catch (const std::exception &e) { r.push_back(std::string("EXC:") + e.what()); }
 			catch (...) { r.push_back("EXC:unknown"); }
 		} else r.push_back("nosim");
+	} else if (name == "signal") {     // signal <flag> <slot>: publishes the id of one of this client's (destroyed) slots
+		std::map<int, Slot>::iterator it = g_slots[client].find(atoi(a[2].c_str()));
+		sim_flag_set(atoi(a[1].c_str()), it == g_slots[client].end() ? -1 : it->second.id);
+		r.push_back("ok");
+	} else if (name == "await") {      // await <flag>: waits for another client's signal, keeps the id for targets "f<flag>"
+		long v = sim_flag_wait(atoi(a[1].c_str()));
+		tl_imported[atoi(a[1].c_str()) & 63] = v;
+		r.push_back(v >= 0 ? "received" : "nobody");
 	} else if (name == "heap_pad") {   // shifts the heap layout of this process for the rest of its life (repeatability oracle)
 		volatile char *pad = (volatile char *)malloc((size_t)atol(a[1].c_str()));
 		if (pad) pad[0] = 1;
